@@ -519,6 +519,10 @@ class Specs:
         if name == 'trace_len':
             n = st.heap.maps.get('$trlen')
             return vint(n if n is not None else z3.Int('h:$trlen'))
+        if name == 'copy_of':
+            # the uninterpreted result of copy.copy(v) on a user value
+            x = ex.ev1(a[0], st, fr)
+            return V(T_ANY, z3.Function('copyof', Ref, Ref)(x.t))
         if name == 'trace_resr':
             i = ex.ev1(a[0], st, fr).t
             return V(T_ANY, st.heap.get('$tr.resr', I, Ref)[i])
